@@ -79,6 +79,29 @@ class RecIn:
         self._f.close()
 
 
+class BufferedRecFile(RecFile):
+    """Like RecFile but buffering: bytes reach the tty (and the arrival log) only on flush() —
+    the behaviour of the default buffered display stream (sys.stdout.buffer) when it is distinct
+    from the command stream.  `drain()` is the harness's own "eventually everything arrives"."""
+
+    def __init__(self, *a, **kw):
+        super().__init__(*a, **kw)
+        self._pending = bytearray()
+
+    def write(self, data):
+        self._pending += bytes(data)
+        return len(data)
+
+    def flush(self):
+        if self._pending:
+            data, self._pending = bytes(self._pending), bytearray()
+            RecFile.write(self, data)
+        return None
+
+    def drain(self):
+        self.flush()
+
+
 def set_winsize(fd: int, cols: int, rows: int, xpix: int = 0, ypix: int = 0):
     fcntl.ioctl(fd, termios.TIOCSWINSZ, struct.pack("HHHH", rows, cols, xpix, ypix))
 
@@ -93,12 +116,12 @@ class _Base:
     def since(self, mark: int) -> bytes:
         return bytes(self.log[mark:])
 
-    def _make(self, fd_out: int, fd_in: int, **kw):
+    def _make(self, fd_out: int, fd_in: int, buffered_display: bool = False, **kw):
         from tupimage.graphics_terminal import GraphicsTerminal
 
         self.streams: dict[str, bytearray] = {}
         self.out_command = RecFile(fd_out, self.log, "command", self.streams)
-        self.out_display = RecFile(fd_out, self.log, "display", self.streams)
+        self.out_display = (BufferedRecFile if buffered_display else RecFile)(fd_out, self.log, "display", self.streams)
         self.read_log = bytearray()   # bytes the object has read (replies)
         self.inp = RecIn(fd_in, self.read_log)
         self.term = GraphicsTerminal(
